@@ -25,7 +25,7 @@ CONFIG = dict(
     min_nontrivial={"quick": 1000, "thorough": 20000},
     nshards={"quick": 8, "thorough": 16},
     timeout={"quick": 600, "thorough": 3600},
-    required_counters=("steps_compared", "observable_edits"),
+    required_counters=("steps_compared", "observable_edits", "other_thread_reads"),
 )
 
 # opcodes whose arguments compare equal in Python yet mean different values (1 == True, 0.0 == -0.0, 1 == 1.0)
@@ -207,6 +207,22 @@ def run_history(ctx, f, analysis, start_label, start, history, hseed):
     observable = 0
     prev = views(p, analysis)
     steps = []
+    # a long-lived second thread that reads the views of the same object between the edits (a scanner's worker
+    # thread handed the pickle once): what it reads after an edit made on this thread is judged like any other read
+    reader = None
+    if int(key[:2], 16) % 3 == 0:
+        from concurrent.futures import ThreadPoolExecutor
+        reader = ThreadPoolExecutor(max_workers=1)
+        reader.submit(views, p, analysis).result()
+    try:
+        _run_steps(ctx, f, analysis, start_label, start, history, hseed, p, rng, pool, original, prev, steps, key, reader, observable)
+    finally:
+        if reader is not None:
+            reader.shutdown(wait=True)
+
+
+def _run_steps(ctx, f, analysis, start_label, start, history, hseed, p, rng, pool, original, prev, steps, key, reader, observable):
+    agg = ctx.agg
     for name in history:
         try:
             apply_edit(f, p, name, rng, pool, original)
@@ -227,6 +243,17 @@ def run_history(ctx, f, analysis, start_label, start, history, hseed):
                           {"label": start_label, "hex": start.hex(), "history": history, "hseed": hseed, "steps": steps,
                            "edited": str(got[bad[0]])[:300], "fresh": str(want[bad[0]])[:300]})
             break
+        if reader is not None:
+            got_r = reader.submit(views, p, analysis).result()
+            agg.count("other_thread_reads")
+            bad = [k for k in want if want[k] != got_r[k]]
+            if bad:
+                agg.violation(f"stale-view:{bad[0]}:other-thread",
+                              f"after {name} a second thread that had read the views before the edit reads '{bad[0]}' and gets "
+                              f"something else than a freshly constructed pickle with the same opcodes gives",
+                              {"label": start_label, "hex": start.hex(), "history": history, "hseed": hseed, "steps": steps,
+                               "other_thread": str(got_r[bad[0]])[:300], "fresh": str(want[bad[0]])[:300]})
+                break
         # and with a pickle whose opcode *objects* are re-created from their public constructor
         # arguments: state hidden on opcode instances cannot make the "fresh" side agree by accident
         try:
